@@ -5,7 +5,7 @@
 From Coq Require Import List Bool String Arith.
 From KV Require Import Eqb Str AL.
 From KV.Model Require Import MUntar.
-From KV.Proofs Require Import PUntar.
+From KV.Proofs Require Import PUntar PUntarSpell.
 Import ListNotations.
 Local Open Scope string_scope.
 Local Open Scope list_scope.
@@ -93,6 +93,73 @@ Theorem C18_no_new_link_leaves : forall (R : rpath) (archive : list member) (s :
   exists after, leaving (snd (untar R archive s)) R = Some after /\ forall e, In e after -> In e before.
 Proof. exact untar_links_stay. Qed.
 Print Assumptions C18_no_new_link_leaves.
+
+(* --- 6. The install directory as the caller spells it, and processes that install several archives.
+   untar_file is given a TEXT: absolute, or relative to the working directory, possibly through symbolic links
+   ([install_dir s cwd text] = where the kernel lands, an existing directory).
+   6a. The directory the filter validates against — os.path.realpath(text) — is that very directory, for every
+   text, working directory and file system: validation and writing cannot be about two different directories. *)
+Theorem C18_spelling_validated_where_written : forall s cwd text R,
+  install_dir s cwd text = Some R -> install_realpath s cwd text = Some R.
+Proof. exact spelled_realpath_agrees. Qed.
+Print Assumptions C18_spelling_validated_where_written.
+
+(* 6b. Confinement to the directory the text denotes at the time of the call. *)
+Theorem C18_untar_spelled_confined : forall cwd text (archive : list member) s R o s',
+  install_dir s cwd text = Some R -> Good R s ->
+  untar_spelled cwd text archive s = Some (o, s') ->
+  (forall p, ~ under R p ->
+     node_at s' p = node_at s p /\
+     forall i, node_at s p = Some (NFile i) -> lookup i (files s') = lookup i (files s))
+  /\ Good R s'.
+Proof. exact untar_spelled_confined. Qed.
+Print Assumptions C18_untar_spelled_confined.
+
+(* 6c. Histories of ANY length: a process calls untar_file any number of times, each call with its own working
+   directory, text and archive ([run_calls]); the same text may denote another directory from one call to the next
+   (chdir, a link re-pointed by an earlier archive...).  A location that is outside the directory of each call — the
+   one its text denotes when that call is made ([history_ok], which also asks each of those states to be [Good]) —
+   keeps its node and, if it is a regular file, its content and owner bits.  Nothing an earlier call saw is
+   carried over: the model of a call is a function of the file system it is made on. *)
+Theorem C18_history_confined : forall (calls : list call) (s : state) (p : rpath),
+  history_ok p calls s ->
+  node_at (run_calls calls s) p = node_at s p /\
+  forall i, node_at s p = Some (NFile i) -> lookup i (files (run_calls calls s)) = lookup i (files s).
+Proof. exact run_calls_confined. Qed.
+Print Assumptions C18_history_confined.
+
+(* the seeded history: from /p/work1 a benign archive is installed into "datasets" (a real directory a is made);
+   from /p/work2 a second archive is installed into "datasets": a -> . ; esc -> a/.. ; esc/victim.txt.  Validated
+   against /p/work1/datasets the link esc would stay inside; against /p/work2/datasets — where it is created — it
+   leads to /p/work2: refused, and /p/work2/victim.txt keeps its content. *)
+Definition st2 : state :=
+  {| nodes := [(["p"], NDir); (["work1"; "p"], NDir); (["datasets"; "work1"; "p"], NDir);
+               (["work2"; "p"], NDir); (["datasets"; "work2"; "p"], NDir); (["victim.txt"; "work2"; "p"], NFile 1)];
+     files := [(1, {| f_data := "precious"; f_orw := true |})]; next := 2 |}.
+Definition calls2 : list call :=
+  [(["work1"; "p"], "datasets", [MReg "a/readme.txt" "hello"]);
+   (["work2"; "p"], "datasets", [MSym "a" "."; MSym "esc" "a/.."; MReg "esc/pwned.txt" "pwned"; MReg "esc/victim.txt" "overwritten"])].
+Example C18_example_same_text_two_directories :
+  history_ok ["victim.txt"; "work2"; "p"] calls2 st2
+  /\ node_at (run_calls calls2 st2) ["readme.txt"; "a"; "datasets"; "work1"; "p"] = Some (NFile 2)
+  /\ node_at (run_calls calls2 st2) ["a"; "datasets"; "work2"; "p"] = Some (NSym ".")
+  /\ node_at (run_calls calls2 st2) ["esc"; "datasets"; "work2"; "p"] = None
+  /\ node_at (run_calls calls2 st2) ["pwned.txt"; "work2"; "p"] = None
+  /\ lookup 1 (files (run_calls calls2 st2)) = Some {| f_data := "precious"; f_orw := true |}
+  /\ option_map fst (untar_spelled ["work2"; "p"] "datasets" (snd (List.nth 1 calls2 ([], "", []))) st2)
+     = Some (OFilter FLinkOutside).
+Proof.
+  split.
+  - cbn [history_ok calls2].
+    change (install_dir st2 ["work1"; "p"] "datasets") with (Some ["datasets"; "work1"; "p"]).
+    split; [apply goodb_Good; vm_compute; reflexivity|].
+    split; [intros U; apply under_underb in U; vm_compute in U; discriminate|].
+    set (s1 := snd (untar ["datasets"; "work1"; "p"] [MReg "a/readme.txt" "hello"] st2)).
+    assert (E : install_dir s1 ["work2"; "p"] "datasets" = Some ["datasets"; "work2"; "p"]) by (vm_compute; reflexivity).
+    rewrite E. split; [apply goodb_Good; vm_compute; reflexivity|].
+    split; [intros U; apply under_underb in U; vm_compute in U; discriminate|exact I].
+  - vm_compute. repeat split.
+Qed.
 
 (* --- non-vacuity and the hostile cases of the property on a concrete, populated tree:
      /p/install            the install directory R, with  pre/old.txt  and  ext -> ../outdir  (user-made)
